@@ -30,6 +30,8 @@ type State struct {
 	set   map[string]bool // havoc exactly these (when !all)
 	keep  map[string]bool
 	pfx   []string // havoc names with these prefixes too
+	key   string   // stStore through a known object: the index written
+	val   string   // ... and the value written (store forwarding)
 	memo  map[string]string
 	depth int
 }
@@ -191,3 +193,37 @@ func sortedKeys(m map[string]bool) []string {
 }
 
 func isGhostArr(name string) bool { return strings.HasPrefix(name, "G!") }
+
+// forwarded returns the value most recently stored into array name at index key, if that is syntactically evident
+// (the latest node affecting the array is a store at the same index term).
+func (s *State) forwarded(name, key string) (string, bool) {
+	for cur := s; cur != nil; cur = cur.prev {
+		switch cur.kind {
+		case stStore:
+			if cur.name == name {
+				if cur.key != "" && cur.key == key {
+					return cur.val, true
+				}
+				return "", false
+			}
+		case stHavoc:
+			if cur.all {
+				if !cur.keep[name] && !cur.fc.isLocalArr(name) {
+					return "", false
+				}
+			} else {
+				if cur.set[name] {
+					return "", false
+				}
+				for _, p := range cur.pfx {
+					if strings.HasPrefix(name, p) {
+						return "", false
+					}
+				}
+			}
+		case stMerge, stBase:
+			return "", false
+		}
+	}
+	return "", false
+}
